@@ -220,4 +220,242 @@ theorem tfn_depth6_nonneg (L : TUnit) (hL : balanceDepth L = some 6) (dd h mi s 
     simp only [if_neg hn, if_pos hpos, Dur.signedF64, Int.one_mul, ← hz, ofInt_small n (by omega), ofInt_small us (by omega), ofInt_small ms (by omega), ofInt_small s (by omega), ofInt_small mi (by omega), ofInt_small h (by omega), ofInt_small dd (by omega)]
     rw [if_pos hv]
 
+theorem tfn_depth0_nonpos (L : TUnit) (hL : balanceDepth L = some 0) (n : Int) (n0 : n ≤ 0) (ns : -9007199254740992 ≤ n)
+    (hv : (⟨0, 0, 0, 0, 0, 0, 0, 0, 0, n⟩ : Dur).isValid = true) :
+    timeFromNormalized (n) L = .ok ⟨0, 0, 0, 0, 0, 0, 0, 0, 0, n⟩ := by
+  unfold timeFromNormalized
+  rw [hL]
+  simp only
+  have hna : ((((n) : Int).natAbs : Nat) : Int) = (-n) := by omega
+  rw [hna, splitNs_depth0 (-n)]
+  have hz : (0 : Int) = F64.ofInt 0 := (ofInt_small 0 (by decide)).symm
+  by_cases h0 : n = 0
+  · have hall : n = 0 := by omega
+    have h_n := hall
+    subst h_n
+    simp only [Dur.signedF64, ← hz, Int.mul_zero, Int.zero_mul, Int.neg_zero]
+    simp at hv ⊢
+    first | exact hv | (intro; exact absurd rfl (by simpa using hv)) | skip
+  · have hneg : n < 0 := by omega
+    simp only [if_pos hneg, Dur.signedF64, ofInt_small (-n) (by omega), ← hz, Int.mul_zero]
+    have e : ∀ x : Int, -1 * -x = x := by intro x; omega
+    simp only [e]
+    rw [if_pos hv]
+
+theorem tfn_depth1_nonpos (L : TUnit) (hL : balanceDepth L = some 1) (us n : Int) (n0 : n ≤ 0) (nb : -1000 < n) (us0 : us ≤ 0) (uss : -9007199254740992 ≤ us)
+    (hv : (⟨0, 0, 0, 0, 0, 0, 0, 0, us, n⟩ : Dur).isValid = true) :
+    timeFromNormalized (us * 1000 + n) L = .ok ⟨0, 0, 0, 0, 0, 0, 0, 0, us, n⟩ := by
+  unfold timeFromNormalized
+  rw [hL]
+  simp only
+  have hna : ((((us * 1000 + n) : Int).natAbs : Nat) : Int) = (-us) * 1000 + (-n) := by omega
+  rw [hna, splitNs_depth1 (-us) (-n) (by omega) (by omega)]
+  have hz : (0 : Int) = F64.ofInt 0 := (ofInt_small 0 (by decide)).symm
+  by_cases h0 : us * 1000 + n = 0
+  · have hall : n = 0 ∧ us = 0 := by omega
+    obtain ⟨h_n, h_us⟩ := hall
+    subst h_n h_us
+    simp only [Dur.signedF64, ← hz, Int.mul_zero, Int.zero_mul, Int.neg_zero]
+    simp at hv ⊢
+    first | exact hv | (intro; exact absurd rfl (by simpa using hv)) | skip
+  · have hneg : us * 1000 + n < 0 := by omega
+    simp only [if_pos hneg, Dur.signedF64, ofInt_small (-n) (by omega), ofInt_small (-us) (by omega), ← hz, Int.mul_zero]
+    have e : ∀ x : Int, -1 * -x = x := by intro x; omega
+    simp only [e]
+    rw [if_pos hv]
+
+theorem tfn_depth2_nonpos (L : TUnit) (hL : balanceDepth L = some 2) (ms us n : Int) (n0 : n ≤ 0) (nb : -1000 < n) (us0 : us ≤ 0) (usb : -1000 < us) (ms0 : ms ≤ 0) (mss : -9007199254740992 ≤ ms)
+    (hv : (⟨0, 0, 0, 0, 0, 0, 0, ms, us, n⟩ : Dur).isValid = true) :
+    timeFromNormalized (ms * 1000000 + us * 1000 + n) L = .ok ⟨0, 0, 0, 0, 0, 0, 0, ms, us, n⟩ := by
+  unfold timeFromNormalized
+  rw [hL]
+  simp only
+  have hna : ((((ms * 1000000 + us * 1000 + n) : Int).natAbs : Nat) : Int) = (-ms) * 1000000 + (-us) * 1000 + (-n) := by omega
+  rw [hna, splitNs_depth2 (-ms) (-us) (-n) (by omega) (by omega) (by omega) (by omega)]
+  have hz : (0 : Int) = F64.ofInt 0 := (ofInt_small 0 (by decide)).symm
+  by_cases h0 : ms * 1000000 + us * 1000 + n = 0
+  · have hall : n = 0 ∧ us = 0 ∧ ms = 0 := by omega
+    obtain ⟨h_n, h_us, h_ms⟩ := hall
+    subst h_n h_us h_ms
+    simp only [Dur.signedF64, ← hz, Int.mul_zero, Int.zero_mul, Int.neg_zero]
+    simp at hv ⊢
+    first | exact hv | (intro; exact absurd rfl (by simpa using hv)) | skip
+  · have hneg : ms * 1000000 + us * 1000 + n < 0 := by omega
+    simp only [if_pos hneg, Dur.signedF64, ofInt_small (-n) (by omega), ofInt_small (-us) (by omega), ofInt_small (-ms) (by omega), ← hz, Int.mul_zero]
+    have e : ∀ x : Int, -1 * -x = x := by intro x; omega
+    simp only [e]
+    rw [if_pos hv]
+
+theorem tfn_depth3_nonpos (L : TUnit) (hL : balanceDepth L = some 3) (s ms us n : Int) (n0 : n ≤ 0) (nb : -1000 < n) (us0 : us ≤ 0) (usb : -1000 < us) (ms0 : ms ≤ 0) (msb : -1000 < ms) (s0 : s ≤ 0) (ss : -9007199254740992 ≤ s)
+    (hv : (⟨0, 0, 0, 0, 0, 0, s, ms, us, n⟩ : Dur).isValid = true) :
+    timeFromNormalized (s * 1000000000 + ms * 1000000 + us * 1000 + n) L = .ok ⟨0, 0, 0, 0, 0, 0, s, ms, us, n⟩ := by
+  unfold timeFromNormalized
+  rw [hL]
+  simp only
+  have hna : ((((s * 1000000000 + ms * 1000000 + us * 1000 + n) : Int).natAbs : Nat) : Int) = (-s) * 1000000000 + (-ms) * 1000000 + (-us) * 1000 + (-n) := by omega
+  rw [hna, splitNs_depth3 (-s) (-ms) (-us) (-n) (by omega) (by omega) (by omega) (by omega) (by omega) (by omega)]
+  have hz : (0 : Int) = F64.ofInt 0 := (ofInt_small 0 (by decide)).symm
+  by_cases h0 : s * 1000000000 + ms * 1000000 + us * 1000 + n = 0
+  · have hall : n = 0 ∧ us = 0 ∧ ms = 0 ∧ s = 0 := by omega
+    obtain ⟨h_n, h_us, h_ms, h_s⟩ := hall
+    subst h_n h_us h_ms h_s
+    simp only [Dur.signedF64, ← hz, Int.mul_zero, Int.zero_mul, Int.neg_zero]
+    simp at hv ⊢
+    first | exact hv | (intro; exact absurd rfl (by simpa using hv)) | skip
+  · have hneg : s * 1000000000 + ms * 1000000 + us * 1000 + n < 0 := by omega
+    simp only [if_pos hneg, Dur.signedF64, ofInt_small (-n) (by omega), ofInt_small (-us) (by omega), ofInt_small (-ms) (by omega), ofInt_small (-s) (by omega), ← hz, Int.mul_zero]
+    have e : ∀ x : Int, -1 * -x = x := by intro x; omega
+    simp only [e]
+    rw [if_pos hv]
+
+theorem tfn_depth4_nonpos (L : TUnit) (hL : balanceDepth L = some 4) (mi s ms us n : Int) (n0 : n ≤ 0) (nb : -1000 < n) (us0 : us ≤ 0) (usb : -1000 < us) (ms0 : ms ≤ 0) (msb : -1000 < ms) (s0 : s ≤ 0) (sb : -60 < s) (mi0 : mi ≤ 0) (mis : -9007199254740992 ≤ mi)
+    (hv : (⟨0, 0, 0, 0, 0, mi, s, ms, us, n⟩ : Dur).isValid = true) :
+    timeFromNormalized (mi * 60000000000 + s * 1000000000 + ms * 1000000 + us * 1000 + n) L = .ok ⟨0, 0, 0, 0, 0, mi, s, ms, us, n⟩ := by
+  unfold timeFromNormalized
+  rw [hL]
+  simp only
+  have hna : ((((mi * 60000000000 + s * 1000000000 + ms * 1000000 + us * 1000 + n) : Int).natAbs : Nat) : Int) = (-mi) * 60000000000 + (-s) * 1000000000 + (-ms) * 1000000 + (-us) * 1000 + (-n) := by omega
+  rw [hna, splitNs_depth4 (-mi) (-s) (-ms) (-us) (-n) (by omega) (by omega) (by omega) (by omega) (by omega) (by omega) (by omega) (by omega)]
+  have hz : (0 : Int) = F64.ofInt 0 := (ofInt_small 0 (by decide)).symm
+  by_cases h0 : mi * 60000000000 + s * 1000000000 + ms * 1000000 + us * 1000 + n = 0
+  · have hall : n = 0 ∧ us = 0 ∧ ms = 0 ∧ s = 0 ∧ mi = 0 := by omega
+    obtain ⟨h_n, h_us, h_ms, h_s, h_mi⟩ := hall
+    subst h_n h_us h_ms h_s h_mi
+    simp only [Dur.signedF64, ← hz, Int.mul_zero, Int.zero_mul, Int.neg_zero]
+    simp at hv ⊢
+    first | exact hv | (intro; exact absurd rfl (by simpa using hv)) | skip
+  · have hneg : mi * 60000000000 + s * 1000000000 + ms * 1000000 + us * 1000 + n < 0 := by omega
+    simp only [if_pos hneg, Dur.signedF64, ofInt_small (-n) (by omega), ofInt_small (-us) (by omega), ofInt_small (-ms) (by omega), ofInt_small (-s) (by omega), ofInt_small (-mi) (by omega), ← hz, Int.mul_zero]
+    have e : ∀ x : Int, -1 * -x = x := by intro x; omega
+    simp only [e]
+    rw [if_pos hv]
+
+theorem tfn_depth5_nonpos (L : TUnit) (hL : balanceDepth L = some 5) (h mi s ms us n : Int) (n0 : n ≤ 0) (nb : -1000 < n) (us0 : us ≤ 0) (usb : -1000 < us) (ms0 : ms ≤ 0) (msb : -1000 < ms) (s0 : s ≤ 0) (sb : -60 < s) (mi0 : mi ≤ 0) (mib : -60 < mi) (h0 : h ≤ 0) (hs : -9007199254740992 ≤ h)
+    (hv : (⟨0, 0, 0, 0, h, mi, s, ms, us, n⟩ : Dur).isValid = true) :
+    timeFromNormalized (h * 3600000000000 + mi * 60000000000 + s * 1000000000 + ms * 1000000 + us * 1000 + n) L = .ok ⟨0, 0, 0, 0, h, mi, s, ms, us, n⟩ := by
+  unfold timeFromNormalized
+  rw [hL]
+  simp only
+  have hna : ((((h * 3600000000000 + mi * 60000000000 + s * 1000000000 + ms * 1000000 + us * 1000 + n) : Int).natAbs : Nat) : Int) = (-h) * 3600000000000 + (-mi) * 60000000000 + (-s) * 1000000000 + (-ms) * 1000000 + (-us) * 1000 + (-n) := by omega
+  rw [hna, splitNs_depth5 (-h) (-mi) (-s) (-ms) (-us) (-n) (by omega) (by omega) (by omega) (by omega) (by omega) (by omega) (by omega) (by omega) (by omega) (by omega)]
+  have hz : (0 : Int) = F64.ofInt 0 := (ofInt_small 0 (by decide)).symm
+  by_cases h0 : h * 3600000000000 + mi * 60000000000 + s * 1000000000 + ms * 1000000 + us * 1000 + n = 0
+  · have hall : n = 0 ∧ us = 0 ∧ ms = 0 ∧ s = 0 ∧ mi = 0 ∧ h = 0 := by omega
+    obtain ⟨h_n, h_us, h_ms, h_s, h_mi, h_h⟩ := hall
+    subst h_n h_us h_ms h_s h_mi h_h
+    simp only [Dur.signedF64, ← hz, Int.mul_zero, Int.zero_mul, Int.neg_zero]
+    simp at hv ⊢
+    first | exact hv | (intro; exact absurd rfl (by simpa using hv)) | skip
+  · have hneg : h * 3600000000000 + mi * 60000000000 + s * 1000000000 + ms * 1000000 + us * 1000 + n < 0 := by omega
+    simp only [if_pos hneg, Dur.signedF64, ofInt_small (-n) (by omega), ofInt_small (-us) (by omega), ofInt_small (-ms) (by omega), ofInt_small (-s) (by omega), ofInt_small (-mi) (by omega), ofInt_small (-h) (by omega), ← hz, Int.mul_zero]
+    have e : ∀ x : Int, -1 * -x = x := by intro x; omega
+    simp only [e]
+    rw [if_pos hv]
+
+theorem tfn_depth6_nonpos (L : TUnit) (hL : balanceDepth L = some 6) (dd h mi s ms us n : Int) (n0 : n ≤ 0) (nb : -1000 < n) (us0 : us ≤ 0) (usb : -1000 < us) (ms0 : ms ≤ 0) (msb : -1000 < ms) (s0 : s ≤ 0) (sb : -60 < s) (mi0 : mi ≤ 0) (mib : -60 < mi) (h0 : h ≤ 0) (hb : -24 < h) (dd0 : dd ≤ 0) (dds : -9007199254740992 ≤ dd)
+    (hv : (⟨0, 0, 0, dd, h, mi, s, ms, us, n⟩ : Dur).isValid = true) :
+    timeFromNormalized (dd * 86400000000000 + h * 3600000000000 + mi * 60000000000 + s * 1000000000 + ms * 1000000 + us * 1000 + n) L = .ok ⟨0, 0, 0, dd, h, mi, s, ms, us, n⟩ := by
+  unfold timeFromNormalized
+  rw [hL]
+  simp only
+  have hna : ((((dd * 86400000000000 + h * 3600000000000 + mi * 60000000000 + s * 1000000000 + ms * 1000000 + us * 1000 + n) : Int).natAbs : Nat) : Int) = (-dd) * 86400000000000 + (-h) * 3600000000000 + (-mi) * 60000000000 + (-s) * 1000000000 + (-ms) * 1000000 + (-us) * 1000 + (-n) := by omega
+  rw [hna, splitNs_depth6 (-dd) (-h) (-mi) (-s) (-ms) (-us) (-n) (by omega) (by omega) (by omega) (by omega) (by omega) (by omega) (by omega) (by omega) (by omega) (by omega) (by omega) (by omega)]
+  have hz : (0 : Int) = F64.ofInt 0 := (ofInt_small 0 (by decide)).symm
+  by_cases h0 : dd * 86400000000000 + h * 3600000000000 + mi * 60000000000 + s * 1000000000 + ms * 1000000 + us * 1000 + n = 0
+  · have hall : n = 0 ∧ us = 0 ∧ ms = 0 ∧ s = 0 ∧ mi = 0 ∧ h = 0 ∧ dd = 0 := by omega
+    obtain ⟨h_n, h_us, h_ms, h_s, h_mi, h_h, h_dd⟩ := hall
+    subst h_n h_us h_ms h_s h_mi h_h h_dd
+    simp only [Dur.signedF64, ← hz, Int.mul_zero, Int.zero_mul, Int.neg_zero]
+    simp at hv ⊢
+    first | exact hv | (intro; exact absurd rfl (by simpa using hv)) | skip
+  · have hneg : dd * 86400000000000 + h * 3600000000000 + mi * 60000000000 + s * 1000000000 + ms * 1000000 + us * 1000 + n < 0 := by omega
+    simp only [if_pos hneg, Dur.signedF64, ofInt_small (-n) (by omega), ofInt_small (-us) (by omega), ofInt_small (-ms) (by omega), ofInt_small (-s) (by omega), ofInt_small (-mi) (by omega), ofInt_small (-h) (by omega), ofInt_small (-dd) (by omega), ← hz, Int.mul_zero]
+    have e : ∀ x : Int, -1 * -x = x := by intro x; omega
+    simp only [e]
+    rw [if_pos hv]
+
+/-- **Balancing is the inverse of recombination.** A duration without calendar units whose fields below its largest
+non-zero unit are already balanced (|hours| < 24, |minutes|, |seconds| < 60, sub-second fields < 1000), with fields a
+double holds exactly, is returned unchanged when its exact total is balanced up to its own largest unit. -/
+theorem timeFromNormalized_balanced (d : Dur) (hv : d.isValid = true)
+    (hcal : d.years = 0 ∧ d.months = 0 ∧ d.weeks = 0)
+    (hb : (d.hours.natAbs : Int) < 24 ∧ (d.minutes.natAbs : Int) < 60 ∧ (d.seconds.natAbs : Int) < 60 ∧
+      (d.milliseconds.natAbs : Int) < 1000 ∧ (d.microseconds.natAbs : Int) < 1000 ∧ (d.nanoseconds.natAbs : Int) < 1000)
+    (hs : ∀ f ∈ d.fields, (f.natAbs : Int) ≤ 9007199254740992) :
+    timeFromNormalized d.totalNs d.defaultLargestUnit = .ok d := by
+  obtain ⟨y, mo, w, dd, h, mi, s, ms, us, n⟩ := d
+  obtain ⟨rfl, rfl, rfl⟩ := hcal
+  have hsu := ((valid_iff _).mp hv).1
+  simp only [Dur.fields, List.mem_cons, List.mem_nil_iff, or_false, forall_eq_or_imp, forall_eq] at hs
+  obtain ⟨_, _, _, sdd, sh, smi, ss, sms, sus, sn⟩ := hs
+  obtain ⟨bh, bmi, bs, bms, bus, bn⟩ := hb
+  simp only at bh bmi bs bms bus bn
+  unfold Dur.signUniform at hsu
+  simp only [Dur.fields, List.mem_cons, List.mem_nil_iff, or_false, forall_eq_or_imp, forall_eq] at hsu
+  have htot : (⟨0, 0, 0, dd, h, mi, s, ms, us, n⟩ : Dur).totalNs =
+      dd * 86400000000000 + h * 3600000000000 + mi * 60000000000 + s * 1000000000 + ms * 1000000 + us * 1000 + n := by
+    simp only [Dur.totalNs, Dur.timeNs]; omega
+  rw [htot]
+  unfold Dur.defaultLargestUnit
+  simp only [ne_eq, not_true_eq_false, if_false]
+  by_cases h_dd : dd = 0
+  · subst h_dd
+    simp only [not_true_eq_false, if_false]
+    by_cases h_h : h = 0
+    · subst h_h
+      simp only [not_true_eq_false, if_false]
+      by_cases h_mi : mi = 0
+      · subst h_mi
+        simp only [not_true_eq_false, if_false]
+        by_cases h_s : s = 0
+        · subst h_s
+          simp only [not_true_eq_false, if_false]
+          by_cases h_ms : ms = 0
+          · subst h_ms
+            simp only [not_true_eq_false, if_false]
+            by_cases h_us : us = 0
+            · subst h_us
+              simp only [not_true_eq_false, if_false]
+              have e : 0 * 86400000000000 + 0 * 3600000000000 + 0 * 60000000000 + 0 * 1000000000 + 0 * 1000000 + 0 * 1000 + n = n := by omega
+              rw [e]
+              rcases hsu with hp | hn
+              · exact tfn_depth0_nonneg .nanosecond rfl n (by omega) (by omega) hv
+              · exact tfn_depth0_nonpos .nanosecond rfl n (by omega) (by omega) hv
+            · rw [if_pos h_us]
+              have e : 0 * 86400000000000 + 0 * 3600000000000 + 0 * 60000000000 + 0 * 1000000000 + 0 * 1000000 + us * 1000 + n = us * 1000 + n := by omega
+              rw [e]
+              rcases hsu with hp | hn
+              · exact tfn_depth1_nonneg .microsecond rfl us n (by omega) (by omega) (by omega) (by omega) hv
+              · exact tfn_depth1_nonpos .microsecond rfl us n (by omega) (by omega) (by omega) (by omega) hv
+          · rw [if_pos h_ms]
+            have e : 0 * 86400000000000 + 0 * 3600000000000 + 0 * 60000000000 + 0 * 1000000000 + ms * 1000000 + us * 1000 + n = ms * 1000000 + us * 1000 + n := by omega
+            rw [e]
+            rcases hsu with hp | hn
+            · exact tfn_depth2_nonneg .millisecond rfl ms us n (by omega) (by omega) (by omega) (by omega) (by omega) (by omega) hv
+            · exact tfn_depth2_nonpos .millisecond rfl ms us n (by omega) (by omega) (by omega) (by omega) (by omega) (by omega) hv
+        · rw [if_pos h_s]
+          have e : 0 * 86400000000000 + 0 * 3600000000000 + 0 * 60000000000 + s * 1000000000 + ms * 1000000 + us * 1000 + n = s * 1000000000 + ms * 1000000 + us * 1000 + n := by omega
+          rw [e]
+          rcases hsu with hp | hn
+          · exact tfn_depth3_nonneg .second rfl s ms us n (by omega) (by omega) (by omega) (by omega) (by omega) (by omega) (by omega) (by omega) hv
+          · exact tfn_depth3_nonpos .second rfl s ms us n (by omega) (by omega) (by omega) (by omega) (by omega) (by omega) (by omega) (by omega) hv
+      · rw [if_pos h_mi]
+        have e : 0 * 86400000000000 + 0 * 3600000000000 + mi * 60000000000 + s * 1000000000 + ms * 1000000 + us * 1000 + n = mi * 60000000000 + s * 1000000000 + ms * 1000000 + us * 1000 + n := by omega
+        rw [e]
+        rcases hsu with hp | hn
+        · exact tfn_depth4_nonneg .minute rfl mi s ms us n (by omega) (by omega) (by omega) (by omega) (by omega) (by omega) (by omega) (by omega) (by omega) (by omega) hv
+        · exact tfn_depth4_nonpos .minute rfl mi s ms us n (by omega) (by omega) (by omega) (by omega) (by omega) (by omega) (by omega) (by omega) (by omega) (by omega) hv
+    · rw [if_pos h_h]
+      have e : 0 * 86400000000000 + h * 3600000000000 + mi * 60000000000 + s * 1000000000 + ms * 1000000 + us * 1000 + n = h * 3600000000000 + mi * 60000000000 + s * 1000000000 + ms * 1000000 + us * 1000 + n := by omega
+      rw [e]
+      rcases hsu with hp | hn
+      · exact tfn_depth5_nonneg .hour rfl h mi s ms us n (by omega) (by omega) (by omega) (by omega) (by omega) (by omega) (by omega) (by omega) (by omega) (by omega) (by omega) (by omega) hv
+      · exact tfn_depth5_nonpos .hour rfl h mi s ms us n (by omega) (by omega) (by omega) (by omega) (by omega) (by omega) (by omega) (by omega) (by omega) (by omega) (by omega) (by omega) hv
+  · rw [if_pos h_dd]
+    have e : dd * 86400000000000 + h * 3600000000000 + mi * 60000000000 + s * 1000000000 + ms * 1000000 + us * 1000 + n = dd * 86400000000000 + h * 3600000000000 + mi * 60000000000 + s * 1000000000 + ms * 1000000 + us * 1000 + n := by omega
+    rw [e]
+    rcases hsu with hp | hn
+    · exact tfn_depth6_nonneg .day rfl dd h mi s ms us n (by omega) (by omega) (by omega) (by omega) (by omega) (by omega) (by omega) (by omega) (by omega) (by omega) (by omega) (by omega) (by omega) (by omega) hv
+    · exact tfn_depth6_nonpos .day rfl dd h mi s ms us n (by omega) (by omega) (by omega) (by omega) (by omega) (by omega) (by omega) (by omega) (by omega) (by omega) (by omega) (by omega) (by omega) (by omega) hv
+
 end TemporalModel
